@@ -57,7 +57,14 @@ func isMutex(t types.Type) bool {
 	return n.Obj().Pkg().Path() == "sync" && (n.Obj().Name() == "Mutex" || n.Obj().Name() == "RWMutex")
 }
 
-func genLocks(repo, out string) {
+var lockPkgsMemo []*lockPkg
+var lockFsetMemo *token.FileSet
+
+// loadLockPkgs parses and type-checks the cache, store and server packages of the repository (once per run)
+func loadLockPkgs(repo string) ([]*lockPkg, *token.FileSet) {
+	if lockPkgsMemo != nil {
+		return lockPkgsMemo, lockFsetMemo
+	}
 	cwd, _ := os.Getwd()
 	_ = os.Chdir(repo)
 	defer func() { _ = os.Chdir(cwd) }()
@@ -95,6 +102,16 @@ func genLocks(repo, out string) {
 			os.Exit(1)
 		}
 		p.pkg = pkg
+	}
+	lockPkgsMemo, lockFsetMemo = pkgs, fset
+	return pkgs, fset
+}
+
+func genLocks(repo, out string) {
+	pkgs, _ := loadLockPkgs(repo)
+	ours := map[string]string{}
+	for _, p := range pkgs {
+		ours[p.path] = p.short
 	}
 	// concrete named types of our packages (for interface resolution)
 	var concrete []*types.Named
